@@ -17,8 +17,11 @@ Abi == [kind |-> "abicoder", op |-> "", ver |-> <<0, 0, 0>>]
 
 Sol(op, v) == [kind |-> "solidity", op |-> op, ver |-> v]
 
-\* header shapes: the solidity pragma alone, after / before / between unrelated pragmas
-Shapes(s) == {<<s>>, <<Exp, s>>, <<s, Exp>>, <<Abi, s>>, <<s, Abi>>, <<Abi, s, Exp>>, <<Exp, Abi, s>>}
+\* a top-level item that is not a pragma (an interface): pragmas are ordinary top-level parts and may follow it
+Item == [kind |-> "item", op |-> "", ver |-> <<0, 0, 0>>]
+\* header shapes: the solidity pragma alone, after / before / between unrelated pragmas, after another item
+Shapes(s) == {<<s>>, <<Exp, s>>, <<s, Exp>>, <<Abi, s>>, <<s, Abi>>, <<Abi, s, Exp>>, <<Exp, Abi, s>>,
+              <<Item, s>>, <<Abi, Item, s>>}
 
 Box == (0 .. MaxMajor) \X (0 .. MaxMinor) \X (0 .. MaxPatch)
 Boundary == {v \in Box : /\ v[2] \in {0, 7, 8, 9, MaxMinor}
